@@ -347,3 +347,49 @@ func taggedCaseConds(body ast.Node) map[ast.Expr]ast.Expr {
 	})
 	return out
 }
+
+// inOpenClause: target sits in the clause of a `switch <status>` that is entered only when the status is open: the
+// `case KindNext:` clause, or the `default:` clause of a switch whose other clauses list every closed kind (closedKinds
+// distinct non-zero constants).
+func inOpenClause(pkgInfo *types.Info, body *ast.BlockStmt, target ast.Node, closedKinds int) bool {
+	found := false
+	ast.Inspect(body, func(n ast.Node) bool {
+		sw, ok := n.(*ast.SwitchStmt)
+		if !ok || sw.Tag == nil || !isStatusSel(pkgInfo, sw.Tag) {
+			return true
+		}
+		closed := map[int64]bool{}
+		var holder *ast.CaseClause
+		for _, cl := range sw.Body.List {
+			cc := cl.(*ast.CaseClause)
+			if cc.Pos() <= target.Pos() && target.End() <= cc.End() {
+				holder = cc
+			}
+			for _, e := range cc.List {
+				if v, isConst := constVal(pkgInfo, e); isConst && v != 0 {
+					closed[v] = true
+				}
+			}
+		}
+		if holder == nil {
+			return true
+		}
+		if holder.List == nil {
+			if len(closed) >= closedKinds {
+				found = true
+			}
+			return true
+		}
+		onlyOpen := true
+		for _, e := range holder.List {
+			if v, isConst := constVal(pkgInfo, e); !isConst || v != 0 {
+				onlyOpen = false
+			}
+		}
+		if onlyOpen {
+			found = true
+		}
+		return true
+	})
+	return found
+}
